@@ -10,7 +10,7 @@ Extraction "model.ml" BinInt.Z.add BinInt.Z.sub BinInt.Z.ltb BinInt.Z.leb BinInt
   Log.radattr2ascii Log.replylog_fields_of Log.fticks_realm Log.fticks_csi Log.hashmac Spec_C18.all_printable Spec_C18.all_lower_hex Spec_C18.normal_form
   Frame.reader Frame.radget Spec_C16.frames Spec_C16.is_prefix_of Spec_C16.list_beq
   Addr.find_conf_from Addr.find_conf Addr.addressmatches Spec_C14.spec_find Spec_C14.spec_entry
-  Proxy.radsrv Proxy.replyh Proxy.writer_release Proxy.freerq Proxy.alloc_rq Proxy.get_rq Proxy.get_client Proxy.set_client Proxy.get_server Proxy.set_server Proxy.empty_slot Proxy.set_wr Proxy.set_lost Proxy.set_nextid Proxy.removeclient Proxy.freerqoutdata Proxy.rc_ok Proxy.rc_ok_at Proxy.refs Locks.edge_ok Locks.rank Dns.parsenaptr Dns.parsesrv Walk.walk_idx Walk.attrvalidate_idx Walk.subwalk_idx
+  Proxy.radsrv Proxy.replyh Proxy.writer_release Proxy.freerq Proxy.alloc_rq Proxy.get_rq Proxy.get_client Proxy.set_client Proxy.get_server Proxy.set_server Proxy.empty_slot Proxy.set_wr Proxy.set_lost Proxy.set_nextid Proxy.removeclient Proxy.drain_replyq Proxy.freeserver Proxy.new_request Proxy.hstep Proxy.freerqoutdata Proxy.rc_ok Proxy.rc_ok_at Proxy.refs Locks.edge_ok Locks.rank Dns.parsenaptr Dns.parsesrv Walk.walk_idx Walk.attrvalidate_idx Walk.subwalk_idx
   Spec_C01.spec_rewrite_untouched Rewrite.dorewrite Rewrite.dorewritemodattr Rewrite.cstr
   Packet.buf2radmsg Packet.radmsg2buf Packet.gettype Packet.getalltype Spec_Packet.wf_packet Spec_Packet.tiles Spec_Packet.length_field
   Spec_Packet.response_auth_ok Spec_Packet.acct_request_auth_ok Spec_Packet.all_msgauth_ok Spec_Packet.has_msgauth Spec_Packet.first_is_msgauth Spec_Packet.attrs_of
